@@ -122,8 +122,9 @@ Definition do_call (c : @cfg Q) (s : @st Q) (k : call) : @st Q * bool :=
       let o := process_justifs Q c s bs in
       (jo_st o, (err_code (jo_err o) =? e) && (negb (e =? 0) || opt_eqb res_eqb (jo_res o) res))
   | KState cells ev evh ph =>
-      (s, zlist_eqb (state_cells s) cells && zlist_eqb (state_evicted s) ev
-          && zlist_eqb (state_evh s) evh && (s_phase s =? ph))
+      (* the harness reports the two eviction lists as sorted sets *)
+      (s, zlist_eqb (state_cells s) cells && zlist_eqb (sort_key (fun x => x) (state_evicted s)) ev
+          && zlist_eqb (sort_key (fun x => x) (state_evh s)) evh && (s_phase s =? ph))
   end.
 
 Fixpoint run_calls (c : @cfg Q) (s : @st Q) (ks : list call) : bool :=
